@@ -84,8 +84,8 @@ class Opaque:
 
 class SymReal:
     """a float known only as an exact real number (decimal literal with symbolic digits); only ever compared"""
-    __slots__ = ('r',)
-    def __init__(self, r): self.r = r
+    __slots__ = ('r', 'neg')
+    def __init__(self, r, neg=False): self.r = r; self.neg = neg
     def __repr__(self): return 'symreal'
 
 def is_sym(x):
